@@ -18,9 +18,24 @@ def describe(hs, k):
     return "\n".join(hs[k])
 
 
+SHAPE = "TriompheModel.Props.ModelShape"
+
+
+def is_sched_obligation(name):
+    """obligations on translator facts (orderings, gate resolution, code shape): their failing-input
+    search is Miri's, not the sequential correspondence's"""
+    return name.startswith("lean:") and (".obl_" in name or name.startswith("lean:ModelShape.") or name.startswith("lean:Gates.")
+                                         or "exclusive" in name)
+
+
 def run(ctx, module, weights, tags, n_quick=250, len_quick=60, n_thorough=4000, len_thorough=200, extra_histories=None,
-        release_too=False, lean_extra=()):
+        release_too=False, lean_extra=(), shape=True):
     ctx.assumptions = list(ASSUME)
+    if shape:
+        facts = common.regen_facts(ctx)
+        a = facts.get("atomics", {})
+        ctx.coverage.setdefault("generated_facts", {}).update({k: a.get(k) for k in ("dropSkeleton", "decGuard", "isUniqueGuard", "unknownWrites", "funnels")})
+        lean_extra = list(lean_extra) + [SHAPE]
     ok, out = common.lean_obligations(ctx, module, lean_extra)
     exe, bout = common.cargo_build_bin(ctx, "hist")
     if exe is None:
@@ -79,6 +94,12 @@ def run(ctx, module, weights, tags, n_quick=250, len_quick=60, n_thorough=4000, 
     })
     if not ctx.failed_obligations():
         return
+    hist_failed = [n for n in ctx.failed_obligations() if not is_sched_obligation(n) and not n.startswith("miri:")]
+    sched_failed = [n for n in ctx.failed_obligations() if is_sched_obligation(n)]
+    if sched_failed:
+        shape_search(ctx, sched_failed, out)
+    if not hist_failed:
+        return
     # ---- something broke: find a concrete failing input for THIS property --------------------
     if mine:
         nm, ex, hi, k, props, msg = mine[0]
@@ -117,6 +138,28 @@ def run(ctx, module, weights, tags, n_quick=250, len_quick=60, n_thorough=4000, 
                      ctx.prop, sorted({p for _, _, _, _, ps, _ in other for p in ps})), "", text, ""]
         body += ["OP " + o for o in small]
     ctx.violation("theorem", "\n".join(body), False)
+
+
+def shape_search(ctx, failed, lean_out):
+    """a translator-fact obligation failed: the sequential runs cannot exhibit it; ask Miri"""
+    if any(v["kind"] == "miri" for v in ctx.violations) or getattr(ctx, "sched_handled", False):
+        return
+    ctx.sched_handled = True
+    import json
+    from vlib import miri
+    body = ["Lean obligations on facts re-extracted from the source that no longer check: %s" % failed,
+            "generated facts: " + json.dumps(ctx.coverage.get("generated_facts")), ""]
+    prop = ctx.prop if ctx.prop in ("C03", "C08", "C09") else "C02"
+    res = miri.run_suite(ctx, miri.programs_for(prop), miri.seeds(ctx, 8), stop_first=True)
+    bad = miri.failing(res)
+    ctx.coverage["shape_search_miri_runs"] = len(res)
+    if bad:
+        r = bad[0]
+        body += ["failing input: Miri litmus program `%s` with -Zmiri-seed=%d:" % (r["program"], r["seed"]), "  replay: " + r["cmd"], r["report"]]
+        ctx.violation("miri", "\n".join(body), True)
+    else:
+        body += ["search: %d Miri litmus runs (%s) found no failing schedule; the sequential correspondence agrees" % (len(res), prop), lean_out[-2000:]]
+        ctx.violation("theorem", "\n".join(body), False)
 
 
 def save_corpus(ctx, ops):
